@@ -39,3 +39,29 @@ Proof.
     + rewrite E. field. lra.
   - rewrite (proj1 (implied_affine _ _ _ _ _ _)). unfold implied_fun_default_leg, implied_fun_fixed_leg. field. lra.
 Qed.
+
+(* present-value round trip: the implied spread of the model present value of a CDS with spread s0 is s0 *)
+Theorem implied_pv_roundtrip r theta rec T s0 s : 0 < r + theta -> 0 < T ->
+  (implied_fun r theta (implied_fun_default_leg r theta rec T - s0 * implied_fun_fixed_leg r theta rec T) rec T s = 0 <-> s = s0).
+Proof.
+  intros H1 H2. pose proof (fixed_leg_pos r theta rec T H1 H2) as F.
+  rewrite (proj1 (implied_affine _ _ _ _ _ _)). split; intros E; [nra | subst; ring].
+Qed.
+
+(* implied threshold: the objective cds_spread(a) - target is non-decreasing in a wherever theta is, and a root reproduces the target *)
+Section Threshold.
+  Variable A : Type.
+  Variable theta_of : A -> R.
+  Variable le : A -> A -> Prop.
+  Hypothesis theta_mono : forall a a', le a a' -> theta_of a <= theta_of a'.
+  Theorem implied_threshold_props target rec : rec <= 1 ->
+    (forall a a', le a a' -> implied_threshold_fun A theta_of target rec a <= implied_threshold_fun A theta_of target rec a') /\
+    (forall a, implied_threshold_fun A theta_of target rec a = 0 <-> cds_spread A theta_of a rec = target) /\
+    (forall h0, implied_threshold_fun_bracket h0 = (-10, - h0)).
+  Proof.
+    intros Hr. split; [|split].
+    - intros a a' H. unfold implied_threshold_fun, cds_spread. pose proof (theta_mono a a' H). nra.
+    - intros a. unfold implied_threshold_fun. split; lra.
+    - reflexivity.
+  Qed.
+End Threshold.
